@@ -825,6 +825,17 @@ func GenC13(r *hx.Rand, thorough bool) History {
 			h.Ops = append(h.Ops, Op{K: "ins", A: 2 + r.Intn(6), B: ps + r.Intn(2*ps)}, Op{K: "sync"})
 		}
 	}
+	if r.Chance(6) {
+		// a non-PASSIVE checkpoint that fails after its PRAGMA ran: the application holds the write lock
+		// longer than litestream's busy timeout (PRAGMA wait + bookkeeping write wait); it then commits
+		// and goes idle: one re-base snapshot, then silence
+		h.Ops = append(h.Ops, Op{K: "sync"}, Op{K: "cwhold", A: 3000 + r.Intn(600), B: 10},
+			Op{K: "lckpt", S: []string{"TRUNCATE", "RESTART", "FULL"}[r.Intn(3)]}, Op{K: "cwait"})
+		if r.Chance(50) {
+			h.Ops = append(h.Ops, genAppOp(r, ps))
+		}
+		h.Ops = append(h.Ops, Op{K: "sync"})
+	}
 	if r.Chance(25) {
 		// a reader pins the WAL while the application writes past the threshold; litestream syncs (its checkpoint
 		// cannot restart the WAL); the reader goes away; the application goes idle
